@@ -161,6 +161,9 @@ func (k *c18) loopStmt(fn *ssa.Function, l *effects.Loop) ast.Node {
 	lo, hi := token.Pos(0), token.Pos(0)
 	for b := range l.Blocks {
 		for _, in := range b.Instrs {
+			if _, isPhi := in.(*ssa.Phi); isPhi {
+				continue // a φ carries the position of the variable's declaration, outside the loop
+			}
 			if p := in.Pos(); p.IsValid() {
 				if lo == 0 || p < lo {
 					lo = p
